@@ -13,7 +13,8 @@
 //!   v2w <arm u|b> <width> <payload>          -> [words] w=<width>
 //!   w2v <width> [words]                      -> <arm> <width> <payload> <mask>
 //!   frombits <width> [words] [mask]          -> [words] [mask]
-//!   port <width> <4state 0|1> [words] [mask] -> seen=[words]/[mask] out=[words] dirty=<0|1>   | panic
+//!   port <width> <4state 0|1> <mode 0|1|2> [words] [mask] -> seen=[words]/[mask] out=[words] dirty=<0|1>   | panic
+//!        mode 0 = SimCtx::read/write, 1 = read_u64/write_u64, 2 = read_words/write_words
 use crate::dom_svlv::{bit, build, gen_bits, gen_width, hex_to_le, le_to_hex, show_value};
 use crate::rng::Rng;
 use crate::util::{Log, Opts};
@@ -29,12 +30,16 @@ pub static SEEN: Mutex<Vec<(Vec<u64>, Vec<u64>, u32)>> = Mutex::new(Vec::new());
 /// `BuildCtx::seed()` of every echo instance created (the host's `instance_seed(base, test, instance)`).
 pub static SEEDS: Mutex<Vec<u64>> = Mutex::new(Vec::new());
 
-/// Echoes input `d` to output `q` through the `Value` API and records what it read.
+/// Echoes input `d` to output `q` and records what it read.  Parameter `MODE` selects the
+/// `SimCtx` accessor pair: 0 = `read`/`write` (the `Value` API, X/Z mask under four-state),
+/// 1 = `read_u64`/`write_u64` (scalar, X/Z dropped), 2 = `read_words`/`write_words` (wide, X/Z dropped).
 pub struct Echo {
     #[allow(dead_code)]
     clk: ClockPort,
     d: InputPort,
     q: OutputPort,
+    mode: u64,
+    buf: Vec<u64>,
 }
 
 impl Component for Echo {
@@ -42,15 +47,31 @@ impl Component for Echo {
 
     fn new(ctx: &mut BuildCtx) -> veryl_component::Result<Self> {
         SEEDS.lock().unwrap().push(ctx.seed());
-        Ok(Self { clk: ctx.clock("clk")?, d: ctx.input("d")?, q: ctx.output("q")? })
+        let mode = ctx.param("MODE").ok().and_then(|v| v.as_u64().ok()).unwrap_or(0);
+        let d = ctx.input("d")?;
+        Ok(Self { clk: ctx.clock("clk")?, buf: vec![0; d.words()], d, q: ctx.output("q")?, mode })
     }
 
     fn on_clock(&mut self, ctx: &mut SimCtx) -> veryl_component::Result<()> {
-        let value = ctx.read(self.d);
-        if let veryl_component::Value::Bits { words, mask_xz, width } = &value {
-            SEEN.lock().unwrap().push((words.to_vec(), mask_xz.to_vec(), *width));
+        match self.mode {
+            1 => {
+                let v = ctx.read_u64(self.d);
+                SEEN.lock().unwrap().push((vec![v], vec![0], self.d.width()));
+                ctx.write_u64(self.q, v);
+            }
+            2 => {
+                ctx.read_words(self.d, &mut self.buf);
+                SEEN.lock().unwrap().push((self.buf.clone(), vec![0; self.buf.len()], self.d.width()));
+                ctx.write_words(self.q, &self.buf);
+            }
+            _ => {
+                let value = ctx.read(self.d);
+                if let veryl_component::Value::Bits { words, mask_xz, width } = &value {
+                    SEEN.lock().unwrap().push((words.to_vec(), mask_xz.to_vec(), *width));
+                }
+                ctx.write(self.q, value);
+            }
         }
-        ctx.write(self.q, value);
         Ok(())
     }
 }
@@ -150,9 +171,10 @@ pub fn apply(line: &str) -> (String, String) {
             );
             (imp, ora)
         }
-        ["port", w, four @ ("0" | "1"), ws, ms] => {
+        ["port", w, four @ ("0" | "1"), mode @ ("0" | "1" | "2"), ws, ms] => {
             let (Some(width), Some(ws), Some(ms)) = (num(w), parse_words(ws), parse_words(ms)) else { return bad() };
             let four = *four == "1";
+            let mode: u64 = mode.parse().unwrap();
             let n = words_for(width);
             let imp = guarded(|| {
                 let mut host = HostContext::new();
@@ -160,6 +182,7 @@ pub fn apply(line: &str) -> (String, String) {
                 let d = host.add_port("d", PortDir::Input, width as u32);
                 host.add_port("q", PortDir::Output, width as u32);
                 host.add_port_role("clk", PortDir::Input, PortRole::Clock, 1);
+                host.add_param("MODE", HostValue::bits_u64(mode, 32));
                 let mut inst = match ExternalInstance::create(&ECHO, &mut host) {
                     Ok(i) => i,
                     Err(e) => return format!("create-failed:{}", e.to_string().replace(' ', "_")),
@@ -187,12 +210,18 @@ pub fn apply(line: &str) -> (String, String) {
                     host.output_dirty("q") as u8
                 )
             });
-            let ora = if ws.len() < n || (four && ms.len() < n) {
-                "?".to_string() // staging a short slice is a host-internal precondition, not part of the property
-            } else {
+            let ora = if ws.len() < n || (four && ms.len() < n) || (mode == 1 && (width == 0 || width > 64)) {
+                "?".to_string() // staging a short slice / a scalar accessor on a non-scalar port: preconditions, not the property
+            } else if mode == 0 {
                 let p = bits_to_words(n, width, |i| wbit(&ws[..n], i));
                 let m = bits_to_words(n, width, |i| four && wbit(&ms[..n], i));
                 format!("seen={}/{} out={} dirty=1", show_words(&p), show_words(&m), show_words(&p))
+            } else {
+                // scalar / word accessors: the component sees the staged payload words as they are (no X/Z),
+                // and the port receives every payload bit below `width`, nothing above
+                let seen: Vec<u64> = ws[..n].to_vec();
+                let p = bits_to_words(n, width, |i| wbit(&ws[..n], i));
+                format!("seen={}/{} out={} dirty=1", show_words(&seen), show_words(&vec![0; n]), show_words(&p))
             };
             (imp, ora)
         }
@@ -298,7 +327,16 @@ fn gen_line(r: &mut Rng, log: &mut Log) -> String {
                 1 => pw.push(r.next()),
                 _ => {}
             }
-            format!("port {width:x} {} {} {}", four as u8, show_words(&pw), show_words(&mw))
+            let mode = match r.below(3) {
+                1 if (1..=64).contains(&width) => 1,
+                0 => 0,
+                _ => 2,
+            };
+            log.count(&format!("port.mode{mode}"));
+            if width > 0 && width % 64 == 0 {
+                log.count(&format!("port.mode{mode}.width_mult64"));
+            }
+            format!("port {width:x} {} {mode} {} {}", four as u8, show_words(&pw), show_words(&mw))
         }
     }
 }
@@ -315,15 +353,20 @@ pub fn main(opts: &Opts) -> i32 {
         for w in 0..=300usize {
             let n = words_for(w);
             let ones = vec![u64::MAX; n];
-            v.push(format!("port {w:x} 1 {} {}", show_words(&ones), show_words(&ones)));
-            v.push(format!("port {w:x} 0 {} {}", show_words(&ones), show_words(&ones)));
+            for mode in 0..3 {
+                if mode == 1 && !(1..=64).contains(&w) {
+                    continue;
+                }
+                v.push(format!("port {w:x} 1 {mode} {} {}", show_words(&ones), show_words(&ones)));
+                v.push(format!("port {w:x} 0 {mode} {} {}", show_words(&ones), show_words(&ones)));
+            }
             v.push(format!("frombits {w:x} {} {}", show_words(&ones), show_words(&ones)));
         }
         log.add("sweep_ops", v.len() as u64);
         for _ in 0..opts.num("n", 3000) {
             v.push(gen_line(&mut r, &mut log));
         }
-        for l in ["v2w q 4 1", "w2v 4 [1", "frombits 4 [1] [g]", "port 4 2 [1] [0]", "port 4 1 [10000000000000000] [0]"] {
+        for l in ["v2w q 4 1", "w2v 4 [1", "frombits 4 [1] [g]", "port 4 2 0 [1] [0]", "port 4 1 0 [10000000000000000] [0]", "port 4 1 3 [1] [0]", "port 4 1 [1] [0]"] {
             v.push(l.to_string());
             log.count("malformed");
         }
